@@ -515,6 +515,31 @@ func runConn(c *mon.Case, r *mon.Run, p params) {
 		return g
 	}
 	cGaps, sGaps := gaps(), gaps()
+	// long silences: one side's first payload comes more than half a minute
+	// after the other began to read, or every write is minutes apart
+	prng := mon.NewRand(p.seed ^ 0x9011)
+	switch p.seed % 6 {
+	case 2:
+		cGaps[0] += time.Duration(31+prng.IntN(90)) * time.Second
+		r.Count("connections_with_a_first_payload_after_a_long_silence", 1)
+	case 3:
+		sGaps[0] += time.Duration(31+prng.IntN(90)) * time.Second
+		r.Count("connections_with_a_first_payload_after_a_long_silence", 1)
+	case 4:
+		for i := range cGaps {
+			cGaps[i] += time.Duration(prng.IntN(10)) * time.Minute
+			sGaps[i] += time.Duration(prng.IntN(10)) * time.Minute
+		}
+		r.Count("connections_with_minutes_between_writes", 1)
+	}
+	// readers that poll (real endpoints only): a read deadline before every
+	// Read, an expired deadline means "nothing yet" — from the end of the
+	// scripted traffic on.  (Not earlier: upstream obfs3 treats every error of
+	// the read that scans for the peer's magic value as fatal, an expired
+	// deadline included, and says so; the property does not speak of deadlines,
+	// and a connection that ends with an error delivers nothing wrong.)
+	poll := &mon.Poller{Interval: time.Duration(20+prng.IntN(60)) * time.Millisecond}
+	defer func() { r.Count("read_deadlines_expired_and_renewed", poll.Timeouts()) }()
 	cStream, sStream := mon.Stream{Key: p.seed ^ 0xc}, mon.Stream{Key: p.seed ^ 0x5}
 	var up, down dirStats // up: client->server
 	up.mismatch, down.mismatch = -1, -1
@@ -564,7 +589,13 @@ func runConn(c *mon.Case, r *mon.Run, p params) {
 			if p.tiny && k < 60 {
 				buf = buf[:1+brng.IntN(24)]
 			}
-			n, err := conn.Read(buf)
+			var n int
+			var err error
+			if nc, ok := conn.(net.Conn); ok && (ds == &up && p.pairing != pairRefServer || ds == &down && p.pairing != pairRefClient) {
+				n, err = poll.Read(nc, buf)
+			} else {
+				n, err = conn.Read(buf)
+			}
 			mu.Lock()
 			if n > 0 {
 				if i := st.Check(buf[:n], off); i >= 0 && ds.mismatch < 0 {
@@ -793,6 +824,49 @@ func runConn(c *mon.Case, r *mon.Run, p params) {
 		writers.Wait()
 		synctest.Wait()
 		good = judge("end")
+	}
+
+	// polling phase: the real readers go on by polling, and bursts arrive in
+	// two parts with a pause between them that outlasts several deadlines
+	if good && p.seed%5 <= 2 {
+		var rc []net.Conn
+		if nc, ok := sc.(net.Conn); ok && p.pairing != pairRefServer {
+			rc = append(rc, nc)
+		}
+		if nc, ok := cc.(net.Conn); ok && p.pairing != pairRefClient {
+			rc = append(rc, nc)
+		}
+		poll.Start(rc...)
+		synctest.Wait()
+		for round := 0; round < 4 && good; round++ {
+			upward := (int(p.seed>>3)+round)&1 == 0
+			if p.pairing == pairRefServer {
+				upward = false
+			} else if p.pairing == pairRefClient {
+				upward = true
+			}
+			wconn, st, ds, half := cc, cStream, &up, c2s
+			if !upward {
+				wconn, st, ds, half = sc, sStream, &down, s2c
+			}
+			t0 := poll.Timeouts()
+			half.SetCut(half.Written()+int64(1+prng.IntN(60)), memwire.CutSilence)
+			var w sync.WaitGroup
+			w.Add(1)
+			sz := 1 + prng.IntN(2500)
+			c.Go(w.Done, func() { writeOne(wconn, st, sz, ds) })
+			time.Sleep(time.Duration(150+prng.IntN(400)) * time.Millisecond)
+			half.SetCut(-1, memwire.CutSilence)
+			w.Wait()
+			synctest.Wait()
+			if poll.Timeouts() > t0 {
+				r.Count("bursts_delivered_across_expired_read_deadlines", 1)
+			}
+			good = judge("polling-reader")
+		}
+		if good {
+			r.Count("polling_phases_verified", 1)
+		}
 	}
 
 	// closing phase: one side writes a last piece and its connection ends (a
